@@ -5,6 +5,9 @@
 (*                                                                         *)
 (*   ServerAdmits     trillian/ctfe/cert_checker.go  ValidateChain         *)
 (*                    (NotAfter window of a log server / shard)            *)
+(*   ConfigAccepts,   trillian/ctfe/config.go ValidateLogConfig and        *)
+(*   ConfiguredAdmits trillian/ctfe/instance.go setUpLogInfo: the window   *)
+(*                    an instance enforces is the configured one           *)
 (*   ShardIndex,      client/multilog.go  TemporalLogClient.IndexByDate,   *)
 (*   ConstructorAccepts                   NewTemporalLogClient             *)
 (*   ListCompatible   loglist3/logfilter.go  LogList.TemporallyCompatible  *)
@@ -41,6 +44,18 @@ ServerAdmits(t, start, limit) ==
   IF start.p /\ t < start.v THEN FALSE
   ELSE IF limit.p /\ ~(t < limit.v) THEN FALSE
   ELSE TRUE
+
+(* ---------- log server as configured: LogConfig -> ValidateLogConfig -> SetUpInstance -> add-chain ---------- *)
+\* ValidateLogConfig: both bounds present and limit.Before(start) -> "limit before start".
+\* NAMED CLAUSE EmptyWindowConfigurable: the property does not say whether a server may be configured with the empty
+\* window [a, a); the server's configuration accepts it (such an instance admits nothing), only limit < start is refused.
+ConfigAccepts(start, limit) == ~(start.p /\ limit.p /\ limit.v < start.v)
+\* setUpLogInfo builds the validation options of the instance from the validated configuration.  From the property
+\* text: the window the instance enforces is the window that was configured - a present bound stays present at the
+\* same instant, an ABSENT bound stays absent (it is not completed by any instant).
+InstanceWindow(start, limit) == Iv(start, limit)
+ConfiguredAdmits(t, start, limit) ==
+  LET w == InstanceWindow(start, limit) IN ServerAdmits(t, w.lower, w.upper)
 
 (* ---------- temporal-shard client ---------- *)
 \* IndexByDate: walk the intervals in order, `continue` past those that exclude t, return the first left
@@ -81,6 +96,41 @@ ListCompatible(t, ti) ==
 \* the interval a log-list entry denotes
 AsIv(ti) == IF ti.k = "absent" THEN Iv(NoBound, NoBound) ELSE Iv(At(ti.s), At(ti.e))
 
+(* ---------- the representable range; the completion of absent bounds is NOT the predicate ---------- *)
+\* The instants a certificate can carry form a bounded range First..Last (RFC 5280 4.1.2.5: GeneralizedTime has a
+\* four-digit year; Last = 99991231235959Z is the value prescribed for "no well-defined expiration date").  InWindow knows
+\* no such range: an absent bound excludes no instant.  A tempting completion - "an absent start is First, an absent
+\* limit is Last", which makes every window fully specified - is a different predicate, because the limit is exclusive:
+Completed(start, limit, First, Last) ==
+  Iv(IF start.p THEN start ELSE At(First), IF limit.p THEN limit ELSE At(Last))
+CompletedAdmits(t, start, limit, First, Last) ==
+  LET w == Completed(start, limit, First, Last) IN ServerAdmits(t, w.lower, w.upper)
+CompletedShardIndex(t, S, First, Last) ==
+  ShardIndex(t, [i \in 1..Len(S) |-> Completed(S[i].lower, S[i].upper, First, Last)])
+\* REFUTED OBSERVATION CompletionIsWindow (CompletedAdmits = InWindow): it fails, and exactly at the last instant of
+\* the range under an absent limit.  Hence a materialization of the ticks that never puts the top tick on the last
+\* representable instant cannot tell the two apart; MCTemporal's frames pin the extreme ticks to the extreme instants.
+CompletionGap(t, start, limit, First, Last) == CompletedAdmits(t, start, limit, First, Last) # InWindow(t, start, limit)
+CompletionGapIsTheLastInstant(T, First, Last) ==
+  \A t \in T, s \in Bounds(T), l \in Bounds(T) :
+    CompletionGap(t, s, l, First, Last) = (t = Last /\ ~l.p /\ InWindow(t, s, l))
+\* what the property says about absent bounds, spelled out (a consequence of InWindow; checked for every component)
+AbsentBoundExcludesNothing(T) ==
+  \A t \in T, b \in Bounds(T) :
+    /\ ServerAdmits(t, NoBound, b) = (b.p => t < b.v)
+    /\ ServerAdmits(t, b, NoBound) = (b.p => b.v <= t)
+    /\ ConfiguredAdmits(t, NoBound, b) = (b.p => t < b.v)
+    /\ ConfiguredAdmits(t, b, NoBound) = (b.p => b.v <= t)
+    /\ (ShardIndex(t, <<Iv(NoBound, b)>>) = 1) = (b.p => t < b.v)
+    /\ (ShardIndex(t, <<Iv(b, NoBound)>>) = 1) = (b.p => b.v <= t)
+
+(* ---------- the integration tests' NotAfter chooser (trillian/integration NotAfterForLog) ---------- *)
+\* NAMED CLAUSE ChooserInside: for the configuration of a shard whose window contains an instant, the chooser returns
+\* an instant of that window (otherwise the shard rejects what its own tests submit).  The chosen instant need not be
+\* one of the ticks; the harness evaluates InWindow on the real instants.  Nothing is asserted for windows [a, a).
+ChooserMustBeInside(start, limit) == ConfigAccepts(start, limit) /\ ~(start.p /\ limit.p /\ start.v = limit.v)
+ChooserOK(picked, start, limit) == InWindow(picked, start, limit)
+
 (* ---------- shard lists, from the property text ---------- *)
 Inverted(iv) == iv.lower.p /\ iv.upper.p /\ iv.upper.v < iv.lower.v
 \* NAMED CLAUSE EmptyShardRefused: the property speaks of inverted intervals; the constructor also refuses the empty
@@ -96,6 +146,8 @@ OverallSpan(S) == Iv(S[1].lower, S[Len(S)].upper)
 
 (* ---------- theorems (checked by TLC over the whole bounded domain, see MCTemporal) ---------- *)
 ServerIsWindow(T) == \A t \in T, s \in Bounds(T), l \in Bounds(T) : ServerAdmits(t, s, l) = InWindow(t, s, l)
+ConfiguredIsWindow(T) == \A t \in T, s \in Bounds(T), l \in Bounds(T) :
+  ConfigAccepts(s, l) => ConfiguredAdmits(t, s, l) = InWindow(t, s, l)
 ListIsWindow(T) == /\ \A t \in T : ListCompatible(t, Absent) = InIv(t, AsIv(Absent))
                    /\ \A t \in T, s \in T, e \in T : ListCompatible(t, Span(s, e)) = InIv(t, AsIv(Span(s, e)))
 ConstructorIsWellFormed(S) == ConstructorAccepts(S) = WellFormedList(S)
@@ -106,4 +158,9 @@ ExactlyOneShard(S, T) == \A t \in T :
 RoutingIsAdmission(S, T) == \A t \in T : \A i \in 1..Len(S) :
   (ShardIndex(t, S) = i) = ServerAdmits(t, S[i].lower, S[i].upper)
 NoneOutside(S, T) == \A t \in T : (ShardIndex(t, S) = NoShard) = ~InIv(t, OverallSpan(S))
+\* routing <=> admission by the server AS CONFIGURED with that shard's window (every shard of an accepted list is a
+\* window the server's configuration accepts)
+RoutingIsConfiguredAdmission(S, T) == \A t \in T : \A i \in 1..Len(S) :
+  /\ ConfigAccepts(S[i].lower, S[i].upper)
+  /\ (ShardIndex(t, S) = i) = ConfiguredAdmits(t, S[i].lower, S[i].upper)
 =============================================================================
